@@ -40,16 +40,17 @@ func (p *NamespaceEscalation) Check(
 
 	// All objects need to be namespace-scoped and either have a namespace equal
 	// to their owner or empty so it can be defaulted.
-	if len(obj.GetNamespace()) > 0 {
-		if obj.GetNamespace() != owner.GetNamespace() {
-			violations = append(violations, Violation{
-				Position: "Object " + obj.GetName(),
-				Error:    "Must stay within the same namespace.",
-			})
-		}
+	if len(obj.GetNamespace()) > 0 && obj.GetNamespace() != owner.GetNamespace() {
+		violations = append(violations, Violation{
+			Position: "Object " + obj.GetName(),
+			Error:    "Must stay within the same namespace.",
+		})
 		return
 	}
 
+	// The namespace is either empty or equal to the owner's namespace (callers default it).
+	// The API server ignores the namespace of cluster-scoped objects,
+	// so the scope of the object always needs to be checked.
 	gvk := obj.GetObjectKind().GroupVersionKind()
 	mapping, err := p.restMapper.RESTMapping(gvk.GroupKind(), gvk.Version)
 	if meta.IsNoMatchError(err) {
